@@ -53,9 +53,8 @@ Proof. dv. veq. Qed.
 Section Rot.
 Variables a b c d : Z.
 Variables tx ty tz : Z.
-Let t : vec := (tx, ty, tz).
 Let n := qn a b c d.
-Let g := rigid (rotq a b c d) t.
+Let g := rigid (rotq a b c d) (tx, ty, tz).
 
 Lemma dist2_rigid x y : dist2_obs (g x) (g y) = n * n * dist2_obs x y.
 Proof. unfold dist2_obs, g, norm2. rewrite rigid_sep, dot_rot. reflexivity. Qed.
@@ -76,7 +75,7 @@ Proof.
 Qed.
 
 (* ------------------------------------------------------------------ global observables *)
-Lemma vsum_rigid l : vsum (map g l) = vadd (mv (rotq a b c d) (vsum l)) (vscale (Z.of_nat (length l)) t).
+Lemma vsum_rigid l : vsum (map g l) = vadd (mv (rotq a b c d) (vsum l)) (vscale (Z.of_nat (length l)) (tx, ty, tz)).
 Proof.
   induction l as [|x l IH].
   - cbn. veq.
@@ -146,3 +145,87 @@ Proof.
   f_equal. apply map_ext. intros x. rewrite !map_map. apply map_ext. intros y. apply dist2_rigid.
 Qed.
 End Rot.
+
+(* ------------------------------------------------------------------ periodic systems *)
+(* whole-system translation never reaches the minimum-image code: separations are unchanged *)
+Lemma translation_sep t x y : vsub (vadd y t) (vadd x t) = vsub y x.
+Proof. dv. veq. Qed.
+
+(* the tie-free hypothesis of C05's shift_invariant, per code path *)
+Definition tie_free_path (p : path) (B : box) (r : vec) : Prop :=
+  match p with
+  | PPlain => False
+  | POrthoSSE => ortho_pos B /\ strict_region B (path_disp p B r)
+  | _ => lower_tri_pos B /\
+         strict_region (reduce (rmode_of_path p) B) (wrap (rmode_of_path p) (reduce (rmode_of_path p) B) r)
+  end.
+
+(* moving the two atoms by arbitrary lattice vectors t1, t2 and the whole system by s *)
+Lemma mic_disp_shift_invariant p B x1 x2 t1 t2 s : tie_free_path p B (vsub x2 x1) ->
+  path_disp p B (vsub (vadd (vadd x2 (comb B t2)) s) (vadd (vadd x1 (comb B t1)) s)) = path_disp p B (vsub x2 x1).
+Proof.
+  intros H. rewrite translation_sep.
+  replace (vsub (vadd x2 (comb B t2)) (vadd x1 (comb B t1))) with (vadd (vsub x2 x1) (comb B (vsub t2 t1)))
+    by (destruct B as [? ? ?]; dv; veq).
+  pose proof (all_paths_shift_invariant p B (vsub x2 x1) (vsub t2 t1)) as Hs.
+  destruct p; cbn [tie_free_path] in H; try contradiction; destruct H as [H1 H2]; exact (Hs H1 H2).
+Qed.
+
+Definition moved (B : box) (s : vec) (x t : vec) : vec := vadd (vadd x (comb B t)) s.
+
+Lemma mic_dist2_shift_invariant p B s x1 x2 t1 t2 : tie_free_path p B (vsub x2 x1) ->
+  mic_dist2 p B (moved B s x1 t1) (moved B s x2 t2) = mic_dist2 p B x1 x2.
+Proof. intros H. unfold mic_dist2, moved. rewrite mic_disp_shift_invariant by exact H. reflexivity. Qed.
+
+Lemma mic_angle_shift_invariant p B s xa xb xc ta tb tc :
+  tie_free_path p B (vsub xa xb) -> tie_free_path p B (vsub xc xb) ->
+  mic_angle_obs p B (moved B s xa ta) (moved B s xb tb) (moved B s xc tc) = mic_angle_obs p B xa xb xc.
+Proof.
+  intros H1 H2. unfold mic_angle_obs, moved. rewrite !mic_disp_shift_invariant by assumption. reflexivity.
+Qed.
+
+Lemma mic_dihedral_shift_invariant p B s x0 x1 x2 x3 t0 t1 t2 t3 :
+  tie_free_path p B (vsub x1 x0) -> tie_free_path p B (vsub x2 x1) -> tie_free_path p B (vsub x3 x2) ->
+  mic_dihedral_obs p B (moved B s x0 t0) (moved B s x1 t1) (moved B s x2 t2) (moved B s x3 t3) =
+  mic_dihedral_obs p B x0 x1 x2 x3.
+Proof.
+  intros H1 H2 H3. unfold mic_dihedral_obs, moved. rewrite !mic_disp_shift_invariant by assumption. reflexivity.
+Qed.
+
+(* ------------------------------------------------------------------ neighbour list *)
+Lemma wrap_shift1d L xs : 0 < L -> forall ks, length ks = length xs ->
+  map (wrap01 L) (shift1d L xs ks) = map (wrap01 L) xs.
+Proof.
+  intros HL. unfold shift1d. induction xs as [|x xs IH]; intros ks Hk; destruct ks as [|k ks]; try discriminate.
+  - reflexivity.
+  - cbn [combine map fst snd]. rewrite IH by (cbn in Hk; lia). f_equal.
+    unfold wrap01. apply Z_mod_plus_full.
+Qed.
+
+(* repaired variant: lattice shifts of individual atoms leave the neighbour relation unchanged *)
+Lemma nl_fix_shift_invariant L c xs ks : 0 < L -> length ks = length xs ->
+  nl_fix L c (shift1d L xs ks) = nl_fix L c xs.
+Proof.
+  intros HL Hk. unfold nl_fix. rewrite wrap_shift1d by assumption. reflexivity.
+Qed.
+
+(* as found: the statement is false.  Cell length 10, cutoff 2, atoms at 5 and 6 are neighbours; the same
+   atoms with the first one moved by one cell length (15 and 6) are not. *)
+Lemma nl_cur_shift_refuted :
+  exists L c xs ks, 0 < L /\ 0 < c /\ 2 * c < L /\ length ks = length xs /\
+    nl_cur L c (shift1d L xs ks) <> nl_cur L c xs.
+Proof. exists 10, 2, [5; 6], [1; 0]. repeat split; try lia. vm_compute. discriminate. Qed.
+
+Lemma nl_example :
+  nl_cur 10 2 [5; 6] = [[false; true]; [true; false]] /\ nl_cur 10 2 [15; 6] = [[false; false]; [false; false]] /\
+  nl_fix 10 2 [15; 6] = [[false; true]; [true; false]] /\
+  nl_cur 10 2 [1; 9; 5] = [[false; true; false]; [true; false; false]; [false; false; false]].
+Proof. vm_compute. repeat split; reflexivity. Qed.
+
+Lemma example_tie_free :
+  let B := mkbox (3072, 0, 0) (5120, 3000, 0) (-7000, 8100, 2900) in
+  tie_free_path PTricCpp B (117204, -30050, -28940) /\ tie_free_path PTricNp B (117204, -30050, -28940) /\
+  tie_free_path POrthoSSE (mkbox (3072, 0, 0) (0, 4000, 0) (0, 0, 2900)) (40000, -51234, 30011).
+Proof.
+  cbv zeta. repeat split; try reflexivity; vm_compute; try reflexivity; intros; discriminate.
+Qed.
